@@ -64,6 +64,17 @@ func ConvertHledgerGlob(pattern string) string {
 	return strings.ReplaceAll(pattern, "<->", "**")
 }
 
+// ExpandHome replaces a leading "~/" by the user's home directory, as
+// ResolvePathSafe does for plain paths ("include ~/fin/*.journal").
+func ExpandHome(pattern string) string {
+	if strings.HasPrefix(pattern, "~/") {
+		if home, err := os.UserHomeDir(); err == nil {
+			return filepath.Join(home, pattern[2:])
+		}
+	}
+	return pattern
+}
+
 // Expanding a pattern costs time that grows with the number of its brace
 // groups (every combination of alternatives is tried) and of its "**"
 // segments (each may match any depth): a line of a few hundred bytes could
